@@ -30,7 +30,7 @@ MANIFEST_INFO = {
     "engine": "B",
     "design_ref": "DESIGN.md section 5, C20",
     "technique": "explicit-state BFS over histories of callback/errback/addCallback/match/extract_result operations on real twisted Deferreds (rebuilt by replay), abstract Deferred state machine as reference; exactly-one classification checked on three fresh replays per state; unhandled-error logging observed after dropping the Deferred; SynchronousDeferredRunTest compared differentially with the plain RunTest over generated programs",
-    "level_text": "All histories of <= 6 (quick) / 8 (thorough) operations over 5 firings (None, 0, 'x', a callback returning an already-fired Deferred, a callback returning an unfired Deferred that fires later), 3 failures (one an IndexError subclass, one a cleaned Failure), 3 callback shapes, has_no_result / succeeded(m) / failed(m) for 4 inner matchers and extract_result are applied to a fresh real Deferred; every verdict is compared with the model, `called` is compared before and after each match, the value later callbacks see is compared with the model's, and a failure inspected by succeeded()/failed() must not be logged as unhandled when the Deferred is dropped. For every generated program with <= 2 deviating stages the result log of SynchronousDeferredRunTest on stages returning already-fired Deferreds equals that of RunTest on the plain stages (cleanups with keyword arguments named fn, result, function and f included); one canned already-fired Deferred returned by two tests run one after the other is reported as error-then-success / success-success.",
+    "level_text": "All histories of <= 6 (quick) / 8 (thorough) operations over 6 firings (None, 0, 'x', a value that compares equal to everything, a callback returning an already-fired Deferred, a callback returning an unfired Deferred that fires later), 3 failures (one an IndexError subclass, one a cleaned Failure), 3 callback shapes, has_no_result / succeeded(m) / failed(m) for 4 inner matchers and extract_result are applied to a fresh real Deferred; every verdict is compared with the model, `called` is compared before and after each match, the value later callbacks see is compared with the model's, and a failure inspected by succeeded()/failed() must not be logged as unhandled when the Deferred is dropped. For every generated program with <= 2 deviating stages the result log of SynchronousDeferredRunTest on stages returning already-fired Deferreds equals that of RunTest on the plain stages (cleanups with keyword arguments named fn, result, function and f included); one canned already-fired Deferred returned by two tests run one after the other is reported as error-then-success / success-success.",
     "level_note": "CPython reference counting makes 'dropped' deterministic; inspecting a failure consumes it (the Deferred then holds None), as the 'marked handled' clause implies.",
 }
 
@@ -56,8 +56,24 @@ def _identity(x):
 
 
 CALLBACKS = {"identity": _identity, "transform": _transform, "raiser": _raiser}
-FIRE_VALUES = {"None": lambda: None, "0": lambda: 0, "x": lambda: "x", "nested": lambda: "outer"}
-FIRE_MODEL = {"None": None, "0": 0, "x": "x", "nested": "outer"}
+class _Any:
+    """Compares equal to everything (unittest.mock.ANY does): still a result like any other."""
+
+    def __eq__(self, other):
+        return True
+
+    def __ne__(self, other):
+        return False
+
+    __hash__ = None
+
+    def __repr__(self):
+        return "<ANY>"
+
+
+ANY = _Any()
+FIRE_VALUES = {"None": lambda: None, "0": lambda: 0, "x": lambda: "x", "nested": lambda: "outer", "any": lambda: ANY}
+FIRE_MODEL = {"None": None, "0": 0, "x": "x", "nested": "outer", "any": ANY}
 
 
 def _to_nested(_):
@@ -408,7 +424,22 @@ def run_bfs(res, depth, first_ops=None):
 # ---------------------------------------------------------------------------
 # SynchronousDeferredRunTest vs plain RunTest on generated programs
 
-SYNC_KINDS = (pg.RET, pg.FAIL, pg.ERROR, pg.SKIP, pg.XFAIL, pg.UXSUCCESS)
+FIRST_ERROR = "first_error"  # what gatherResults / DeferredList(fireOnOneErrback) fail with: a FirstError around the child's failure
+pg.FLATTEN[FIRST_ERROR] = (pg.ERROR,)
+SYNC_KINDS = (pg.RET, pg.FAIL, pg.ERROR, pg.SKIP, pg.XFAIL, pg.UXSUCCESS, FIRST_ERROR)
+_c20_prev_perform = pg.perform
+
+
+def _perform(case, ctx, stage, kind):
+    if kind == FIRST_ERROR:
+        marker = "%s!%s" % (stage, kind)
+        ctx.raised.append((stage, kind, marker))
+        ctx.xlog.append(("raise", stage, kind))
+        try:
+            case.fail(marker)  # (the child went wrong with an assertion: the FirstError is an error all the same)
+        except case.failureException:
+            raise defer.FirstError(Failure(), 0)
+    return _c20_prev_perform(case, ctx, stage, kind)
 
 
 class AppDeferred(defer.Deferred):
@@ -462,6 +493,7 @@ def sync_actions(nc):
 
 
 def sync_execute(nc, em, chooser):
+    pg.perform = _perform
     config = pg.Config(actions=sync_actions(nc), kinds=SYNC_KINDS, setup_pre_kinds=(pg.ERROR,), expect_mismatch=em)
     ctx = pg.Ctx(config, chooser)
     case = pg.new_case(config, ctx)
